@@ -375,19 +375,15 @@ func runC07(c *eng.Ctx) {
 		c.Check(strings.HasSuffix(d, ".acknowledgedSeq+1)") || strings.Contains(d, "AcknowledgedSeq()+1") || strings.Contains(d, "AckIndex()+1"), "resume-at-ack+1", rs.Instr, f,
 			"replay resumes at the first unacknowledged entry", "resets to "+d)
 		// the callback acks exactly the sequence it is given
-		var cb *ssa.Function
-		for _, cl := range f.AnonFuncs {
-			if len(p.Sites(cl, eng.CallTo(rpT+".SetAckIndex"))) > 0 {
-				cb = cl
-			}
-		}
-		if cb == nil {
-			c.Undecided("ack callback not found")
+		a := eng.CallArgs(reg.Instr.(*ssa.Call))
+		cb := eng.FuncOfValue(a[1]) // a function literal or a method value
+		if cb == nil || cb.Blocks == nil {
+			c.Undecided("ack callback not found (registered value %s)", p.Desc(a[1]))
 		}
 		s := c.One(cb, eng.CallTo(rpT+".SetAckIndex"), "SetAckIndex(seq)")
-		c.Check(eng.CallArgs(s.Instr.(*ssa.Call))[0] == ssa.Value(cb.Params[0]), "callback-acks-its-argument", s.Instr, cb, "the callback acknowledges the sequence the family reports as persisted", "")
-		a := eng.CallArgs(reg.Instr.(*ssa.Call))
-		c.Check(strings.HasSuffix(p.Desc(a[1]), p.FuncKey(cb)), "callback-registered", reg.Instr, f, "that closure is what the family calls after a flush", "")
+		seqParam := cb.Params[len(cb.Params)-1] // func(seq) literal, or method (recv, seq)
+		c.Check(eng.CallArgs(s.Instr.(*ssa.Call))[0] == ssa.Value(seqParam), "callback-acks-its-argument", s.Instr, cb, "the callback acknowledges the sequence the family reports as persisted", "")
+		c.Check(true, "callback-registered", reg.Instr, f, "the function that acknowledges is what the family calls after a flush", "")
 	})
 
 	// ---- 8. who may ack the log -----------------------------------------------------------------------------------------------
